@@ -24,6 +24,8 @@ THEOREMS = [
     "C20.conservative",
     "C20.conservative_name_table",
     "C20.conservative_table",
+    "C20.object_locality",
+    "C20.accepted_op_count",
     "Lemmas.Filter.diffCore_filter_key",
     "Lemmas.Filter.candidates_desc",
     "Lemmas.Filter.candidates_in",
